@@ -70,7 +70,22 @@ class VGen(Value):
         return item, cond, (lambda: ex.spec_eval(self.node.elt, env))
 
 
+class VBagDict(Value):
+    """the __dict__ of an attribute-bag object (all of its attributes)"""
+    def __init__(self, obj):
+        self.shape = None
+        self.obj = obj
+
+
 class EvalMixin:
+    def is_bag(self, obj):
+        d = self.world.classes.get(obj.shape.cls) if isinstance(obj, SRef) else None
+        return bool(d is not None and d.bag)
+
+    def bag_of(self, obj):
+        bags = self.path.__dict__.setdefault('bags', {})
+        return bags.setdefault(z3.simplify(obj.id).sexpr(), {})
+
     # ------------------------------------------------------------ raising
     def raise_(self, cls, *args, **attrs):
         if self.spec:
@@ -172,6 +187,8 @@ class EvalMixin:
                 return box(a) == box(b)
         if isinstance(a, VClass) and isinstance(b, VClass):
             return z3.BoolVal(a.name == b.name)
+        if isinstance(a, VFunc) and isinstance(b, VFunc):
+            return z3.BoolVal(a.qualname == b.qualname and a.node is b.node)
         if a is b:
             return z3.BoolVal(True)
         if isinstance(a, Value) and isinstance(b, Value) and a.shape is not None \
@@ -465,6 +482,23 @@ class EvalMixin:
                 return ea > eb
             if isinstance(op, ast.GtE):
                 return ea >= eb
+        if isinstance(a, STup) and isinstance(b, STup):
+            # tuples of concrete integers (sys.version_info >= (3, 11)): lexicographic
+            import operator
+            f = {ast.Lt: operator.lt, ast.LtE: operator.le, ast.Gt: operator.gt, ast.GtE: operator.ge}[type(op)]
+            verdict = None
+            for x, y in zip(a.items, b.items):
+                cx = self.conc_int(x) if is_num(x) else None
+                cy = self.conc_int(y) if is_num(y) else None
+                if cx is None or cy is None:
+                    break
+                if cx != cy:
+                    verdict = f(cx, cy)
+                    break
+            else:
+                verdict = f(len(a.items), len(b.items))
+            if verdict is not None:
+                return z3.BoolVal(verdict)
         if self.spec:
             if isinstance(a, SNone) or isinstance(b, SNone):
                 # a clause comparing a value that is None on this path: such a
@@ -520,6 +554,11 @@ class EvalMixin:
             v = self.path.read_field(obj, name)
             if v is not None:
                 return v
+            if self.is_bag(obj):
+                if name == '__dict__':
+                    return VBagDict(obj)
+                if name in self.bag_of(obj):
+                    return self.bag_of(obj)[name]
             r = self.class_attr(obj, name)
             if r is not None:
                 return r
